@@ -49,6 +49,62 @@ def one_system(c, system):
     return one_system(c.left, system) and one_system(c.right, system)
 
 
+# ---- 'nb' marks (English): written here on plain Atom/Functor values, without Category.clear_features / == of the code under test -------
+def erase(c, values=('nb',)):
+    """c with the unary features named in `values` removed"""
+    from depccg.cat import Atom, Functor
+    if c.is_functor:
+        return Functor(erase(c.left, values), c.slash, erase(c.right, values))
+    return Atom(c.base) if c.feature.value in values else c
+
+
+def nb_slots(c, path=()):
+    """the positions where the category syntax allows an [nb] to be added: atoms without a feature that are not punctuation"""
+    if c.is_functor:
+        return nb_slots(c.left, path + (0,)) + nb_slots(c.right, path + (1,))
+    return [path] if c.feature.value is None and c.base not in gen.puncts() else []
+
+
+def mark_nb(c, slots, path=()):
+    from depccg.cat import Atom, Functor, UnaryFeature
+    if c.is_functor:
+        return Functor(mark_nb(c.left, slots, path + (0,)), c.slash, mark_nb(c.right, slots, path + (1,)))
+    return Atom(c.base, UnaryFeature('nb')) if path in slots else c
+
+
+def how(x, y, r):
+    """the observable way a result was produced: label, symbol, and how its category relates to the inputs (one of them passed through,
+    y|y, or a category built anew) - the strata from which pairs are drawn, so that rules that fire on few pairs get their share"""
+    import en_oracle as O
+    c = r.cat
+    rel = 'x' if O.ceq(c, x) else 'y' if O.ceq(c, y) else 'y|y' if (c.is_functor and O.ceq(c.left, y) and O.ceq(c.right, y)) else 'built'
+    return (r.op_string, r.op_symbol, rel)
+
+
+def nb_check(en, x0, y0, xs, ys, seen_all):
+    """the property on one pair: x0, y0 carry no nb mark; xs, ys are sets of positions (nb_slots) that get one.  Returns
+    (x_nb, y_nb, out_nb, key, problems) with problems = [(seen-label, description)]"""
+    import en_oracle as O
+    x, y = mark_nb(x0, xs), mark_nb(y0, ys)
+    key = (erase(x0, ('X', 'nb')), erase(y0, ('X', 'nb')))
+    probs = []
+    out, out0 = G.call(en.apply_binary_rules, x, y), G.call(en.apply_binary_rules, x0, y0)
+    for label, seen, licensed in (('none', None, True), ('pair', {key}, True), ('shipped', seen_all, key in seen_all)):
+        o = out if seen is None else G.call(en.apply_binary_rules, x, y, seen)
+        want = G.sig(out0) if licensed else ()
+        if G.sig(o) != want:
+            why = ''
+            if o[0] == 'ok' and out0[0] == 'ok' and O.in_domain(x) and O.in_domain(y):
+                # which side is off: the schemata of the grammar, read on the nb-erased inputs by the independent oracle of C03
+                marked, plain = O.check_pair(x, y, o[1]), O.check_pair(x0, y0, out0[1])
+                extra = [w for w in marked if w not in plain]
+                if extra and licensed:
+                    why = f'; on the marked pair: {extra[0][1]}'
+            probs.append((label, f'en: ({x}, {y}) gives {G.sig(o)} but the same pair without nb marks ({x0}, {y0}) gives {G.sig(out0)}'
+                          + ('' if seen is None else f' [with a seen-rule set ({label}) that {"licenses" if licensed else "does not license"} the erased pair]') + why))
+    return x, y, out, key, probs
+
+
 def run(ctx):
     rng = ctx.rng
     targets = ['GenEn.vo', 'GenJa.vo']
@@ -191,6 +247,75 @@ def run(ctx):
                     ctx.fail('unary_not_exact', f'{lang}: apply_unary_rules({x}) returns {out} for a category without unary rules', {'lang': lang, 'x': str(x)})
                 cases.append(f'Un{"En" if lang == "en" else "Ja"} {gcat(x)} {G.gtable(table)} (Ok_ [])')
                 descr.append(('un0', lang, str(x)))
+    # ---- English results do not depend on 'nb' marks: [nb] added at random positions of pairs that (mostly) combine ------------------------
+    # sources: the pairs of seen_rules.en (observed in the treebank: these mostly fire), punctuation/conjunction atoms with every category of the
+    # pool (rules outside the combinatory schemata), pool x pool, random categories.  Half of the draws are stratified by HOW the unmarked pair
+    # produces its results (label, symbol, input passed through / y|y / built anew), so that rules firing on few pairs are reached too.
+    import en_oracle as O
+    P = Category.parse
+    en_pool = [erase(P(s)) for s in gen.inventory('en')] + [erase(P(s)) for s in gen.inventory('en_rebank')[:200]]
+    en_seen_list = gen.model_file('seen_rules.en.jsonnet')
+    en_seen_all = {(erase(P(a), ('X', 'nb')), erase(P(b), ('X', 'nb'))) for a, b in en_seen_list}
+    src = [(erase(P(a)), erase(P(b))) for a, b in en_seen_list]
+    atoms_p = [c for c in en_pool if not c.is_functor and c.base in gen.puncts()]
+    src += [(a, c) for a in atoms_p for c in en_pool] + [(c, a) for a in atoms_p for c in (en_pool if not ctx.quick else rng.sample(en_pool, 150))]
+    strata = {}
+    for k, (x0, y0) in enumerate(src):
+        if not (nb_slots(x0) or nb_slots(y0)):
+            continue
+        o = G.call(en.apply_binary_rules, x0, y0)
+        for r in (o[1] if o[0] == 'ok' else []):
+            strata.setdefault(how(x0, y0, r), []).append(k)
+    skeys = sorted(strata)
+    ctx.stats['nb:strata'] = len(skeys)
+    n_nb = 1200 if ctx.quick else 12000
+    nb_fired = nb_tried = 0
+    for it in range(n_nb):
+        u = rng.random()
+        if u < 0.5:
+            x0, y0 = src[rng.choice(strata[rng.choice(skeys)])]
+            origin = 'stratum'
+        elif u < 0.75:
+            x0, y0 = src[rng.randrange(len(en_seen_list))]
+            origin = 'seen_rules'
+        elif u < 0.9:
+            x0, y0 = rng.choice(en_pool), rng.choice(en_pool)
+            origin = 'pool'
+        else:
+            x0, y0 = erase(gen.rand_cat(rng, 'en', depth=2)), erase(gen.rand_cat(rng, 'en', depth=2))
+            origin = 'random'
+        if not (gen.wf_py(x0) and gen.wf_py(y0) and one_system(x0, 'en') and one_system(y0, 'en')):
+            continue
+        sx, sy = nb_slots(x0), nb_slots(y0)
+        side = rng.choice(['x', 'y', 'both'])
+        if not sx or (side == 'y' and sy):
+            sx_ = []
+        else:
+            sx_ = [rng.choice(sx)] if rng.random() < 0.5 else [p_ for p_ in sx if rng.random() < 0.5] or [rng.choice(sx)]
+        if not sy or (side == 'x' and sx_):
+            sy_ = []
+        else:
+            sy_ = [rng.choice(sy)] if rng.random() < 0.5 else [p_ for p_ in sy if rng.random() < 0.5] or [rng.choice(sy)]
+        if not (sx_ or sy_):
+            continue
+        x, y, out, key, probs = nb_check(en, x0, y0, set(sx_), set(sy_), en_seen_all)
+        nt = out[0] == 'ok' and bool(out[1])
+        nb_tried += 1
+        nb_fired += nt
+        ctx.case(('nb', str(x), str(y)), nontrivial=nt)
+        ctx.count(f'nb:origin:{origin}')
+        if not (gen.wf_py(x) and gen.wf_py(y)):
+            ctx.fail('generator', f'marked category is not well-formed: ({x}, {y})', {'lang': 'en', 'x': str(x), 'y': str(y), 'stream': 'nb_marks'})
+        for label, why in probs[:1]:
+            ctx.fail('nb_dependence', why, {'lang': 'en', 'x': str(x), 'y': str(y), 'x0': str(x0), 'y0': str(y0), 'seen': label, 'origin': origin, 'stream': 'nb_marks'})
+        if (nt or rng.random() < 0.1) and rng.random() < (0.35 if ctx.quick else 0.1):
+            seen_small = rng.choice([None, [key]])
+            cases.append(f'BinEn {gcat(x)} {gcat(y)} {G.gseen(seen_small)} {G.gresult(out)}')       # licensed either way: the unrestricted result
+            descr.append(('bin-nb', 'en', str(x), str(y)))
+    ctx.stats['nb:pairs'] = nb_tried
+    ctx.stats['nb:pairs_firing'] = nb_fired
+    if nb_fired * 2 < nb_tried:
+        ctx.obligation('the nb stream is mostly non-trivial (at least half of the marked pairs combine)', False, f'{nb_fired} of {nb_tried}')
     ctx.coq_cases('rules', G.PRE, cases, chunk=120, describe=lambda i: descr[i])
     # reproducibility across processes and string-hash seeds
     # twins that differ only in variable features, next to each other with the same partner: the answer for one must not depend on
@@ -294,3 +419,27 @@ def run(ctx):
                       rule='pairs drawn from the shipped inventories (+rebank), categories with repeated feature variables, random well-formed categories of one feature system; seen-rule sets {the pair}, {}, the shipped set; every key of the shipped unary tables + 40 non-keys; 4 (quick) / 16 (thorough) interpreter processes with different PYTHONHASHSEED; non-trivial = at least one rule fires; distinct by (lang, x, y)',
                       assumptions=['domain of totality: well-formed categories of ONE feature system (mixing unary features and triples can raise AttributeError, C06)',
                                    'Japanese unary keys must have a feature triple on their result atom'])
+
+
+def replay(data):
+    """re-execute the failures of a replay file on the implementation (the 'nb_marks' stream; other failures are shown as recorded)"""
+    import json as _json
+    from depccg.grammar import en
+    bad = 0
+    seen_all = None
+    for f in data.get('failures', []):
+        d = f['data'] if isinstance(f.get('data'), dict) else {}
+        print(f"[{f['kind']}] {f['desc']}")
+        if d.get('stream') == 'nb_marks' and 'x0' in d:
+            if seen_all is None:
+                seen_all = {(erase(Category.parse(a), ('X', 'nb')), erase(Category.parse(b), ('X', 'nb'))) for a, b in gen.model_file('seen_rules.en.jsonnet')}
+            x, y = Category.parse(d['x']), Category.parse(d['y'])
+            x0, y0 = erase(x), erase(y)
+            _, _, out, _, probs = nb_check(en, x0, y0, {p for p in nb_slots(x0) if p not in nb_slots(x)}, {p for p in nb_slots(y0) if p not in nb_slots(y)}, seen_all)
+            print('   now:', G.sig(out), '->', [w for _, w in probs] or 'same as without nb marks')
+            bad += bool(probs)
+        else:
+            print('   data:', _json.dumps(d)[:600])
+    for b in data.get('broken_obligations', []):
+        print('broken obligation:', b if isinstance(b, str) else b.get('name') if isinstance(b, dict) else b[0])
+    return 1 if bad or data.get('broken_obligations') else 0
